@@ -1,8 +1,8 @@
 #!/usr/bin/env python3
 import os
 HERE = os.path.dirname(os.path.abspath(__file__))
-VARS = ["ForcedAwaitsWorkers", "GracefulSkipsAwait", "CompleteBeforeJoin", "TermIsForced", "SecondStopHangs", "AwaitsLastWorkerOnly"]
-INVS = "C06_GracefulWaits C06_NoDispatchAfterCompletion C06_SignalKinds"
+VARS = ["ForcedAwaitsWorkers", "GracefulSkipsAwait", "CompleteBeforeJoin", "TermIsForced", "SecondStopHangs", "AwaitsLastWorkerOnly", "WakeAcceptFirst"]
+INVS = "C06_GracefulWaits C06_GracefulLetsFinish C06_NoDispatchAfterCompletion C06_SignalKinds"
 
 
 def cfg(name, nw, live, stops, timeout, flip=None, spec="Spec", props="Steps", invs=INVS):
@@ -30,4 +30,5 @@ cfg("NEG_stop_CompleteBeforeJoin", 1, 1, 1, 2, flip=["CompleteBeforeJoin"])
 cfg("NEG_stop_TermIsForced", 1, 1, 1, 2, flip=["TermIsForced"])
 cfg("NEG_stop_SecondStopHangs", 1, 1, 2, 2, flip=["SecondStopHangs"], spec="FairSpec", props="C06_AlwaysCompletes", invs="")
 cfg("NEG_stop_AwaitsLastWorkerOnly", 2, 1, 1, 2, flip=["AwaitsLastWorkerOnly"])
+cfg("NEG_stop_WakeAcceptFirst", 1, 1, 1, 2, flip=["WakeAcceptFirst"])   # defect F8 (as found): the accept thread exits first
 print("stop configs written")
